@@ -199,7 +199,8 @@ class Copeland:
         :param n_seats: Number of candidates to select.
         """
         wins = pairwise_wins(votes)
-        scores = self.scores(wins)
+        scores = {cand: 0 for pair in votes for cand in pair}
+        scores.update(self.scores(wins))
         best = votelib.evaluate.core.get_n_best(scores, n_seats)
         if self.second_order and votelib.evaluate.core.Tie.any(best):
             return self.break_second_order(best, scores, wins)
@@ -230,7 +231,7 @@ class Copeland:
                 tied.update(selected)
             else:
                 untied.append(selected)
-        second_order_scores = collections.defaultdict(int)
+        second_order_scores = {cand: 0 for cand in tied}
         for winner, loser in wins:
             if winner in tied:
                 second_order_scores[winner] += scores[loser]
